@@ -18,6 +18,8 @@ Transcribed from `/repo/src/buffered_socket.c` (`free_space`, `unread_bytes`,
 * A client is a pure state machine that decides, from inside the read callback, what to read next.
 -/
 
+set_option linter.unusedVariables false  -- `match h :` hypotheses are used by `decreasing_by` only
+
 namespace Cjet.Bufread
 
 /-! ## Requests, clients, kernel answers -/
@@ -426,10 +428,21 @@ def terminal : List (List KRes) → Terminal
   | [] => .none
   | ev :: evs => if evFin ev = .none then terminal evs else evFin ev
 
-/-- Kernel compatibility in the strict sense of DESIGN A.2: every chunk is non-empty (the theorems do
-    not need more: a chunk longer than the size asked for is handed over in pieces). -/
-def Compatible (evs : List (List KRes)) : Prop :=
-  ∀ ev ∈ evs, ∀ b, KRes.chunk b ∈ ev → b ≠ []
+/-- What a peer can observe of a connection's run: the deliveries and how the connection ended
+    (`wouldBlock` = still open). -/
+def observable (fin : Final σ) : List (σ × Bytes) × Outcome := (deliveries fin.obs, fin.out)
+
+/-- Pointer discipline visible in one observation: a `socket_read` is issued with `r ≤ w ≤ cap` for exactly
+    the free space behind `write_ptr`, which is not empty, and the kernel's answer fits; a delivered slice
+    is non-empty and lies inside `[r, w)`. -/
+def Obs.ok (cap : Nat) : Obs σ → Prop
+  | .read r w asked got =>
+    r ≤ w ∧ w ≤ cap ∧ 0 < asked ∧ asked = cap - w ∧
+      (match got with
+       | .data b => 0 < b.length ∧ b.length ≤ asked
+       | _ => True)
+  | .deliver r w _ b => 0 < b.length ∧ r + b.length ≤ w ∧ w ≤ cap
+  | _ => True
 
 /-! ## Clients -/
 
@@ -515,5 +528,65 @@ def mixClient : Client Req where
     if x = 255 then (s, true)
     else if x ≥ 128 then (.until CRLF, false)
     else (.exactly (x % 8), false)
+
+
+/-! ## Direct statements of the two framings (what C09 says in words) -/
+
+/-- 4-byte big-endian encoding of a length. -/
+def be32 (n : Nat) : Bytes :=
+  [UInt8.ofNat (n / 16777216 % 256), UInt8.ofNat (n / 65536 % 256), UInt8.ofNat (n / 256 % 256), UInt8.ofNat (n % 256)]
+
+/-- The raw-socket framing as a function of the byte stream alone: 4-byte big-endian length; a zero length
+    is skipped; a length above `cap` ends the connection (error path); otherwise the message is exactly the
+    next `length` bytes; a message the parser refuses ends the connection.  Result: the messages handed to the
+    parser, and how the connection ends (`wouldBlock` = still open). -/
+def Raw.frames (cap : Nat) (ok : Bytes → Bool) (str : Bytes) (t : Terminal) : List Bytes × Outcome :=
+  if _h4 : str.length < 4 then ([], .ofTerminal t)
+  else
+    let n := be (str.take 4)
+    let body := str.drop 4
+    if n = 0 then Raw.frames cap ok body t
+    else if cap < n then ([], .tooMuch)
+    else if body.length < n then ([], .ofTerminal t)
+    else if ok (body.take n) then
+      let r := Raw.frames cap ok (body.drop n) t
+      (body.take n :: r.1, r.2)
+    else ([body.take n], .clientClosed)
+termination_by str.length
+decreasing_by
+  all_goals simp only [List.length_drop]
+  all_goals omega
+
+/-- the messages (deliveries made in state `msg`) among a raw peer's deliveries. -/
+def rawMessages : List (RawSt × Bytes) → List Bytes
+  | [] => []
+  | (.msg _, m) :: ds => m :: rawMessages ds
+  | (.len, _) :: ds => rawMessages ds
+
+/-- `pre` consists of whole frames (zero-length headers and accepted non-empty messages of legal length)
+    carrying the messages `ms`. -/
+inductive Raw.Whole (cap : Nat) (ok : Bytes → Bool) : Bytes → List Bytes → Prop where
+  | nil : Raw.Whole cap ok [] []
+  | zero {pre ms} : Raw.Whole cap ok pre ms → Raw.Whole cap ok (be32 0 ++ pre) ms
+  | frame {pre ms} (m : Bytes) : m ≠ [] → m.length ≤ cap → m.length < 4294967296 → ok m = true →
+      Raw.Whole cap ok pre ms → Raw.Whole cap ok (be32 m.length ++ m ++ pre) (m :: ms)
+
+/-- Lines as a function of the byte stream alone: a line is everything up to and including the first
+    occurrence of the delimiter; `cap` bytes without a delimiter end the connection (error path). -/
+def Lines.split (cap : Nat) (d : Bytes) (ok : Bytes → Bool) (str : Bytes) (t : Terminal) : List Bytes × Outcome :=
+  match hf : findSub d (str.take cap) with
+  | some i =>
+    if h0 : i + d.length = 0 then ([], .peerClosed)
+    else if ok (str.take (i + d.length)) then
+      let r := Lines.split cap d ok (str.drop (i + d.length)) t
+      (str.take (i + d.length) :: r.1, r.2)
+    else ([str.take (i + d.length)], .clientClosed)
+  | none => if cap ≤ str.length then ([], .tooMuch) else ([], .ofTerminal t)
+termination_by str.length
+decreasing_by
+  have := findSub_le d _ i hf
+  simp only [List.length_take] at this
+  simp only [List.length_drop]
+  omega
 
 end Cjet.Bufread
